@@ -4,15 +4,18 @@ use crate::runner::Check;
 
 pub mod c02;
 pub mod c03;
+pub mod c07;
 pub mod c08;
 pub mod c09;
+pub mod c10;
+pub mod c11;
 pub mod c17;
 pub mod c12;
 pub mod c13;
 pub mod c18;
 
 pub fn all() -> Vec<Check> {
-    vec![c02::check(), c03::check(), c08::check(), c09::check(), c17::check(), c12::check(), c13::check(), c18::check()]
+    vec![c02::check(), c03::check(), c07::check(), c08::check(), c09::check(), c10::check(), c11::check(), c17::check(), c12::check(), c13::check(), c18::check()]
 }
 
 pub fn probe_main(_args: &[String]) -> i32 {
